@@ -87,6 +87,9 @@ def run_shard(spec):
         w = spec["replay"]
         L = [bytes.fromhex(x) for x in w["list"]]
         st = State(mt)
+        if w.get("lane") == "node":         # the route through the store is re-run (the witness lists are for the reader)
+            node_lane(st, random.Random(1), 25)
+            return st.result()
         if "edited" in w:
             st.check_pair(L, [bytes.fromhex(x) for x in w["edited"]], w.get("edit", "replay"))
         st.check_list(L)
@@ -130,6 +133,7 @@ def run_shard(spec):
                 M = L + [L[i]]; name = "duplicate-to-end"
             st.check_pair(L, M, name + "@long")
     consensus_lane(st, rng, 150 if tier == "quick" else 4000)
+    node_lane(st, rng, 25 if tier == "quick" else 400)
     return st.result()
 
 
@@ -182,6 +186,78 @@ def consensus_lane(st, rng, n):
         blk = dt.Block(dt.BlockHeader(summary, dt.PowEvidence(b"\x00" * 32, b"\x00" * 32, b"\x00" * 32)), ed)
         if blk.header.summary.merkle_root_hash == cons.calc_merkle_root_hash(blk.transactions):
             st.v("stale-commitment-accepted-for-edited-list", "merkle check passes for a block whose transactions were edited", w)
+
+
+def node_lane(st, rng, n):
+    """the commitment of blocks the node HOLDS: blocks whose header commits to their transaction list are taken through the
+    routes by which a node obtains blocks (decoded from bytes; written to a file-backed block store and read back by a
+    fresh store object) -- the ordered id list must be the committed one, and the header commitment must be reproduced by
+    the commitment function and by the inclusion proof of every position"""
+    import os
+    import skepticoin.consensus as cons
+    import skepticoin.datatypes as dt
+    from skepticoin.blockstore import BlockStore
+    from skepticoin import merkletree as mt
+    from skv import objgen, nodekit
+    g = objgen.Gen()
+    path = os.path.join(os.getcwd(), "c17-node.db")
+    for suffix in ("", "-journal"):
+        if os.path.exists(path + suffix):
+            os.remove(path + suffix)
+    store = nodekit.quiet(BlockStore, path)
+    made = {}
+    for k in range(n):
+        txs = []
+        for _ in range(rng.choice([2, 3, 4, 5, 8, 9])):
+            ins = [dt.Input(dt.OutputReference(b"\x00" * 32, objgen.pick_u32(rng)), g.signature(rng)) for _i in range(rng.choice([1, 2]))]
+            outs = [dt.Output(rng.randrange(1, 1 << 50), g.public_key(rng)) for _i in range(rng.choice([1, 2]))]
+            txs.append(dt.Transaction(ins, outs))
+        ids = [t.hash() for t in txs]
+        if len(set(ids)) != len(ids):
+            continue
+        s = g.block_summary(rng)
+        s.previous_block_hash = ref.GENESIS_ID
+        s.height = 1 + k
+        s.merkle_root_hash = cons.calc_merkle_root_hash(txs)
+        blk = dt.Block(dt.BlockHeader(s, g.pow_evidence(rng)), txs)
+        made[blk.hash()] = (ids, s.merkle_root_hash)
+        try:
+            store.write_blocks_to_disk([blk])
+        except Exception as e:
+            st.v("node-lane:store-refuses-block", "write_blocks_to_disk raised %r" % (e,), {"list": [x.hex() for x in ids], "lane": "node"})
+            continue
+        obtained = [("decoded-from-bytes", dt.Block.deserialize(blk.serialize()))]
+        for route, b in obtained:
+            _judge_held_block(st, mt, cons, route, b, ids, s.merkle_root_hash)
+    store.close()
+    store = nodekit.quiet(BlockStore, path)
+    for b in store.read_blocks_from_disk():
+        if b.hash() in made:
+            ids, root = made[b.hash()]
+            _judge_held_block(st, mt, cons, "read-back-from-store", b, ids, root)
+    store.close()
+    for suffix in ("", "-journal"):
+        if os.path.exists(path + suffix):
+            os.remove(path + suffix)
+
+
+def _judge_held_block(st, mt, cons, route, b, ids, root):
+    st.c_extra["held_blocks_checked"] = st.c_extra.get("held_blocks_checked", 0) + 1
+    got = [t.hash() for t in b.transactions]
+    w = {"list": [x.hex() for x in ids], "edited": [x.hex() for x in got], "edit": "node-" + route, "lane": "node"}
+    if got != ids:
+        st.v("held-block-lists-other-ids-than-committed:" + route, "a block %s holds %d transactions in another order or with other "
+             "ids than the list its header commits to" % (route, len(got)), w)
+    if cons.calc_merkle_root_hash(b.transactions) != b.header.summary.merkle_root_hash or b.header.summary.merkle_root_hash != root:
+        st.v("held-block-does-not-reproduce-its-commitment:" + route, "the commitment computed from the transactions of a block %s "
+             "differs from the commitment in its header" % route, w)
+    tree = mt.get_merkle_tree(got)
+    for i in range(len(got)):
+        st.c_extra["held_block_proofs"] = st.c_extra.get("held_block_proofs", 0) + 1
+        if mt.get_proof(tree, i).hash() != root:
+            st.v("held-block-proof-does-not-reproduce-commitment:" + route, "inclusion proof for position %d of a block %s does not "
+                 "reproduce the header commitment" % (i, route), w)
+            break
 
 
 class State:
@@ -275,6 +351,7 @@ def finalize(m, tier):
         "floors": [("list_pairs_compared", c.get("list_pairs_compared", 0), 5000),
                    ("proofs_checked", c.get("proofs_checked", 0), 500),
                    ("duplicate-last pairs", c.get("pairs_by_edit", {}).get("duplicate-last", 0), 100),
-                   ("consensus_commitments", c.get("consensus_commitments", 0), 500)],
+                   ("consensus_commitments", c.get("consensus_commitments", 0), 500),
+                   ("held_blocks_checked", c.get("held_blocks_checked", 0), 500), ("held_block_proofs", c.get("held_block_proofs", 0), 2000)],
         "extra": {"exhaustive_bound": "all single edits of the listed kinds for every base list of length 1..10"},
     }
